@@ -20,6 +20,43 @@ def run_traversals(repo, res, enum=None, only=None, rp=True, flows=None):
     return n
 
 
+def cross_check_sm(repo, res, rule="XCHECK"):
+    """thorough tier: the syn view (engine S) and the compiler's view (engine M) must agree on which free / inherent functions
+    exist in the shipped crates -- a function one extractor does not see is a blind spot of every rule built on it"""
+    from vlib import mir as M
+
+    mir = M.get_mir()
+    mp = {p for p, f in mir.fns.items() if not f.parent and "<" not in p}
+    sp = {q for q in repo.fns if "<" not in q and not q.startswith("build::")}
+    sp = {q[5:] if q.startswith("lib::") else q for q in sp}
+    only_s, only_m = sorted(sp - mp), sorted(mp - sp)
+    res.check(not only_s and not only_m, rule, f"{rule}:S-vs-M:functions", f"{len(sp)} free/inherent functions in the syntax trees, {len(mp)} in the MIR of lib + bin" + ("" if not only_s and not only_m else f"; only in S: {only_s[:8]}; only in M: {only_m[:8]}"), "")
+
+
+def bash_n_cross_check(repo, res, rule="XCHECK"):
+    """thorough tier: bash's own parser (`bash -n`, which reads but never runs its input) must accept every assembled skeleton that
+    engine K's parser accepted -- a disagreement means K misreads the program it reasons about.  Holes are plain word tokens."""
+    import itertools
+    import shutil
+    import subprocess
+    from vlib import emission as E
+
+    if shutil.which("bash") is None:
+        res.advisory("bash is not installed: K's parse of the skeleton has no second opinion")
+        return
+    fn = repo.fn("bash::write_completion_script")
+    names = [n for n, _ in E.flag_names(repo, fn)]
+    bad = []
+    n = 0
+    for v in itertools.product([False, True], repeat=len(names)):
+        text, origin, asm = E.assemble(repo, "bash::write_completion_script", dict(zip(names, v)))
+        r = subprocess.run(["bash", "-n"], input=text, text=True, capture_output=True)
+        n += 1
+        if r.returncode != 0:
+            bad.append((v, r.stderr.strip()[:120]))
+    res.check(not bad, rule, f"{rule}:bash-n:skeletons", f"bash -n accepts {n - len(bad)} of {n} assembled skeletons" + ("" if not bad else f"; first rejection: {bad[0]}"), "")
+
+
 def discover_traversals(repo, res, rule="TC-DISCOVER"):
     """Every non-test function with a near-exhaustive match over Expr / RegexNode must be tabled
     (as a traversal or as a listed non-traversal): a new pass gets reviewed instead of ignored."""
